@@ -136,7 +136,7 @@ pub fn cli(args: &[String]) -> i32 {
             let s = if args.iter().any(|a| a == "--inproc") {
                 execute(&plan, None, false, &props, dump)
             } else {
-                match run_forked(&plan, None, false, &props, dump, 60_000) {
+                match run_forked(&plan, None, false, &props, dump, crate::runner::child_timeout_ms()) {
                     ChildResult::Ok(s) => s,
                     ChildResult::Crashed(m) => {
                         eprintln!("harness error: {}", m);
@@ -175,7 +175,7 @@ fn cmd_replay(path: &str, dump: bool) -> i32 {
         }
     };
     let props: Vec<String> = vec![rf.property.clone()];
-    match run_forked(&rf.plan, Some(rf.choices.clone()), false, &props, dump, 60_000) {
+    match run_forked(&rf.plan, Some(rf.choices.clone()), false, &props, dump, crate::runner::child_timeout_ms()) {
         ChildResult::Crashed(m) => {
             eprintln!("harness error: {}", m);
             2
